@@ -13,6 +13,11 @@ type ReadBuffers struct {
 }
 
 func (t *ReadBuffers) Receive(bs []byte) ([]byte, bool, error) {
+	if len(bs) < 8 {
+		// shorter than the segment header: malformed datagram, discard
+		return nil, false, nil
+	}
+
 	t.Lock()
 	defer t.Unlock()
 
